@@ -59,9 +59,11 @@ Definition hop_arg_ok (h : hop) : bool :=
   | HSetTableName tn => no_list tn
   | HChangeType _ _ => true
   | HAppendColumn c | HAppendPartitionColumn c => no_list c
+  | HSetWithClause wc => no_list wc
   end.
 Definition hop_field (h : hop) : string :=
-  match h with HSetTableName _ => "table_name" | HChangeType _ _ | HAppendColumn _ => "columns" | HAppendPartitionColumn _ => "partitioned_by" end.
+  match h with HSetTableName _ => "table_name" | HChangeType _ _ | HAppendColumn _ => "columns" | HAppendPartitionColumn _ => "partitioned_by"
+               | HSetWithClause _ => "with_clause" end.
 
 Lemma change_column_type_no_list hm rp col col' :
   no_list col = true -> change_column_type hm rp col = Ok col' -> no_list col' = true.
@@ -101,6 +103,7 @@ Proof.
     apply set_field_no_list; auto. apply (append_item_no_list (get "columns" c) col a); auto. apply get_no_list; auto.
   - destruct (append_item (get "partitioned_by" c) col) eqn:Ea; try discriminate. inversion E; subst.
     apply set_field_no_list; auto. apply (append_item_no_list (get "partitioned_by" c) col a); auto. apply get_no_list; auto.
+  - inversion E; subst. apply set_field_no_list; auto.
 Qed.
 
 Lemma apply_hop_cls h c c' : apply_hop h c = Ok c' -> cls_of c' = cls_of c.
@@ -111,6 +114,7 @@ Proof.
       destruct (map_res (change_column_type hm remove_param) l); try discriminate; inversion E; subst; apply set_field_cls.
   - destruct (append_item (get "columns" c) col); try discriminate. inversion E; subst. apply set_field_cls.
   - destruct (append_item (get "partitioned_by" c) col); try discriminate. inversion E; subst. apply set_field_cls.
+  - inversion E; subst. apply set_field_cls.
 Qed.
 
 (* frame: every field other than the helper's own is untouched *)
@@ -122,6 +126,7 @@ Proof.
       destruct (map_res (change_column_type hm remove_param) l); try discriminate; inversion E; subst; apply set_field_other; auto.
   - destruct (append_item (get "columns" c) col); try discriminate. inversion E; subst. apply set_field_other; auto.
   - destruct (append_item (get "partitioned_by" c) col); try discriminate. inversion E; subst. apply set_field_other; auto.
+  - inversion E; subst. apply set_field_other; auto.
 Qed.
 
 (* all helper histories *)
